@@ -30,6 +30,8 @@ slices per tier and column count, build_blocks / expand enumerate them):
   P2 "drawing": a reduced kind alphabet x 2 rows (second deviating) x header on/off x all 4 styles x
      all 3 indentations x every alignment vector over {left,right,center}^n x ANSI/plain x 1..3 widths.
   P2 and P1 with n<=2 render every table twice.
+  P4 "two renderings at once" (E3, mc/sched.py): two threads render two different tables; every interleaving at the granularity of
+     source lines of cell_wrapper.py with at most one preemption; each rendering must equal the rendering of that table alone.
   P3 "edited tables": the table is not new - a table with other content was rendered once and then edited into the table
      under test by set_row(first) / set_row(last) / add_row / set_rows / set_header_row; all clauses are judged on the rendering
      of the edited table (a table reached by a history is a table), which is also rendered twice.
@@ -464,7 +466,84 @@ def run_case(case):
     return [report.viol(s, w, case, e, o) for s, w, e, o in bad], wrapped
 
 
+# ---------------------------------------------------------------------------------------------
+# P4: two tables rendered at the same time (E3, mc/sched.py): the width distribution and the wrapping of one table use no
+# scratch state that another rendering could touch
+PAIRS_P4 = [
+    (((K_TWO, K_S40), 2, 1, True, "ascii", 0, (0, 0), 30, False, False), ((K_S40, K_WORD), 2, 1, False, "ascii", 0, (0, 0), 24, False, False)),
+    (((K_S40,), 1, None, False, "compact", 0, (0,), 12, False, False), ((K_S40,), 1, None, False, "compact", 0, (0,), 25, False, False)),
+]
+
+
+def _render_text(case):
+    return render(case)[0]
+
+
+def check_p4(pi_, bound, first_alts=None):
+    from mc import sched
+    pair = PAIRS_P4[pi_]
+    want = [_render_text(c) for c in pair]
+
+    def run_one(choices):
+        s, got, exc, alive = sched.run_pair(choices, [lambda c=c: _render_text(c) for c in pair], "cell_wrapper.py", horizon=20000)
+        case = {"p4": pi_}
+        vs = []
+        if s.deadlock or s.livelock or exc is not None or alive:
+            vs.append(report.viol("concurrent:stuck", "two concurrent renderings did not both finish (deadlock=%s livelock=%s exc=%r)"
+                                  % (s.deadlock, s.livelock, exc), case, "both finish", [s.deadlock, s.livelock, repr(exc), alive]))
+        for i, t in enumerate(s.threads[1:3]):
+            if t.exc is not None:
+                vs.append(report.viol("concurrent:crash:" + report.exc_site(t.exc), "Table.render raised %r while another table was being rendered"
+                                      % (t.exc,), case, want[i], repr(t.exc)))
+            elif not vs and got[i] != want[i]:
+                vs.append(report.viol("concurrent:render-differs", "a table rendered while another thread renders another table differs from the "
+                                      "same table rendered alone", case, want[i], got[i]))
+        return s.points, vs[:1]
+
+    if first_alts == "root":
+        return sched.root_alternatives(run_one)
+    return sched.explore(run_one, bound, first_alts=first_alts)
+
+
+def part_p4(bound):
+    jobs, res = [], {}
+    for pi_ in range(len(PAIRS_P4)):
+        st, vs, alts = check_p4(pi_, bound, "root")
+        res[pi_] = [st, list(vs)]
+        for ch in par.chunks(alts, max(1, common.ncpu() * 2 // len(PAIRS_P4))):
+            jobs.append([(pi_, ch)])
+
+    def work(share):
+        out = []
+        for pi_, alts in share:
+            st, vs = check_p4(pi_, bound, alts)
+            out.append((pi_, st, vs[:3]))
+        return out
+
+    for r in par.pmap(work, jobs):
+        for pi_, st, vs in r:
+            tot = res[pi_][0]
+            tot["execs"] += st["execs"]
+            tot["max_points"] = max(tot["max_points"], st["max_points"])
+            for k, v in st["by_preemptions"].items():
+                tot["by_preemptions"][k] = tot["by_preemptions"].get(k, 0) + v
+            res[pi_][1].extend(vs)
+    return res
+
+
 def replay(case):
+    if isinstance(case, dict) and "p4" in case:
+        from mc import sched
+        pair = PAIRS_P4[case["p4"]]
+        want = [_render_text(c) for c in pair]
+        s, got, exc, alive = sched.run_pair(case.get("choices") or [], [lambda c=c: _render_text(c) for c in pair], "cell_wrapper.py", horizon=20000)
+        for i, t in enumerate(s.threads[1:3]):
+            if t.exc is not None:
+                return report.viol("concurrent:crash:" + report.exc_site(t.exc), "Table.render raised %r" % (t.exc,), case, want[i], repr(t.exc))
+            if got[i] != want[i]:
+                return report.viol("concurrent:render-differs", "a table rendered while another thread renders another table differs from the "
+                                   "same table rendered alone", case, want[i], got[i])
+        return None
     case = [tuple(x) if isinstance(x, list) else x for x in case]
     vs, _ = run_case(case)
     other = [v for v in vs if v["sig"] != "markup-shown:tagged-cell"]
@@ -592,6 +671,17 @@ def main():
         found += vs
     for _, v in sorted(found, key=lambda x: x[0]):  # simplest first across workers
         rep.violation(v)
+    p4 = part_p4(1)
+    nsched = 0
+    for pi_ in sorted(p4):
+        st, vs = p4[pi_]
+        nsched += st["execs"]
+        for v in vs[:1]:
+            rep.violation(v)
+    rep.add("evaluations", nsched)
+    rep.set("schedules", nsched)
+    rep.part("P4-concurrent-renderings", pairs=len(PAIRS_P4), preemption_bound=1, granularity="source lines of cell_wrapper.py",
+             schedules={str(k): p4[k][0]["execs"] for k in p4}, max_points={str(k): p4[k][0]["max_points"] for k in p4})
     rep.set("blocks", len(blocks))
     rep.set("per_part", per)
     rep.set("exhaustive", True)
